@@ -276,8 +276,8 @@ func (p *Path) frameCheck(site string, locs []Loc) {
 		fx.mayWrite[l.Heap] = true
 		var f string
 		switch {
-		case l.AllTag != 0:
-			f = "false"
+		case l.Pred != "" || l.AllTag != 0:
+			f = fmt.Sprintf("(forall ((a Ref)) (=> %s (or (> (stamp a) now_0) %s)))", locCond(l, "a"), p.modCond(l.Heap, "a"))
 		case l.All:
 			f = "false"
 		case l.MapRow:
